@@ -678,6 +678,11 @@ class TransferManager(BaseManager):
         if transfer.local_path is None:
             download_path, file_path = self._shares_manager.calculate_download_path(transfer.remote_path)
             transfer.local_path = os.path.join(download_path, file_path)
+            # Claim the path in the same step in which it was found to be free
+            # (no await in between) otherwise another download that is starting
+            # could be given the same path
+            os.makedirs(download_path, exist_ok=True)
+            open(transfer.local_path, 'ab').close()
 
         path, _ = os.path.split(transfer.local_path)
         await self._shares_manager.create_directory(path)
